@@ -23,7 +23,7 @@ ASSUMPTIONS = [
     "CSV: records end at a newline or carriage return outside quotes; ';' separates fields outside quotes; all records must have the same number of fields",
     "XML: xml.etree.ElementTree accepts the document (it rejects unbound namespace prefixes and duplicate attributes)",
     "TAR: name fields 100 bytes NUL-padded, checksum field = 6 octal digits + NUL + space equal to the header byte sum with the field blanked (the property lists checksums and field encodings only; link targets are not judged)",
-    "reST: docutils reports no system message of level warning or higher; underlines at least as long as their titles",
+    "reST: docutils reports no ERROR/SEVERE system message, and no WARNING about title under-/overlines, link target names or enumerated lists (the three formalized rules); other warnings (inline markup) are outside the property's list",
 ]
 TASKS_PER_CHILD = 1
 CONFIRM = False  # a run depends on Z3 timing; a failing solution is validated again from its own string in replay()
@@ -128,8 +128,11 @@ def rest_valid(text):
     except Exception as e:  # noqa
         return f"docutils raised {type(e).__name__}: {str(e)[:100]}"
     for m in doc.traverse(docutils.nodes.system_message):
-        if m["level"] >= 2:
-            return f"docutils level-{m['level']} message: {m.astext()[:120]}"
+        txt = m.astext()
+        # "rendering without errors": ERROR (3) and SEVERE (4); of the warnings (2) only those about the three formalized rules
+        # (title underlines, link targets, list numbering) - e.g. inline-markup warnings are not part of the formalized property
+        if m["level"] >= 3 or (m["level"] == 2 and re.search(r"underline|overline|target name|[Ee]numerated list", txt)):
+            return f"docutils level-{m['level']} message: {txt[:120]}"
     return None
 
 
